@@ -35,12 +35,18 @@ def _convert_name_to_convention(
     # Remove underscores and join in camelCase
     name_parts = cleaned_name.split("_")
 
-    # UpperCamelCase for class names
     if is_class_name:
-        return "".join(part[0].upper() + part[1:] for part in name_parts if part)
+        # UpperCamelCase for class names
+        converted_name = "".join(part[0].upper() + part[1:] for part in name_parts if part)
+    else:
+        # Normal camelCase for everything else
+        converted_name = name_parts[0] + "".join(part[0].upper() + part[1:] for part in name_parts[1:] if part)
 
-    # Normal camelCase for everything else
-    return name_parts[0] + "".join(part[0].upper() + part[1:] for part in name_parts[1:] if part)
+    # An identifier cannot start with a digit, so one of the leading underscores has to stay (e.g. for "_1")
+    if converted_name[:1].isdigit():
+        return f"_{converted_name}"
+
+    return converted_name
 
 
 def _get_shortest_public_reexport(
